@@ -492,4 +492,61 @@ def runHist (h : Heap) (a b : Nat) : List (Bool × Mut) → Heap
   | [] => h
   | (side, m) :: rest => runHist (applyMut h (if side then a else b) m) a b rest
 
+/-! #### objects WITH derivatives -/
+
+/-- `copy(recursive=False)` of every derivative, in dictionary order (qube.py:2060-2063) -/
+def copyDerivs (h : Heap) : List (Nat × Nat) → Heap × List (Nat × Nat)
+  | [] => (h, [])
+  | (k, d) :: rest =>
+    let r := copyFlat h d
+    let r2 := copyDerivs r.1 rest
+    (r2.1, (k, r.2) :: r2.2)
+
+/-- `Qube.copy()` (qube.py copy): the object itself by `copyFlat`, then each derivative by `copyFlat`, inserted into
+    the new object -/
+def copyObj (h : Heap) (o : Nat) : Heap × Nat :=
+  let r := copyFlat h o
+  let r2 := copyDerivs r.1 (h.obj o).derivs
+  let oc := r2.1.obj r.2
+  let oc' : Obj := { oc with derivs := r2.2 }
+  ({ r2.1 with obj := upd r2.1.obj r.2 oc' }, r.2)
+
+/-- the in-place public API of an object with derivatives -/
+inductive MutT where
+  /-- a storage mutation of the object itself -/
+  | own (m : Mut)
+  /-- a storage mutation of its derivative `k` (`t.d_dk[...] = v`, `t.d_dk *= 2` …); KeyError if absent -/
+  | deriv (k : Nat) (m : Mut)
+  /-- `t.insert_deriv(k, d)` with an operand `d` that is not an alias of anything else: a new object on new arrays
+      replaces/creates entry `k` (refused on a read-only object) -/
+  | insertDeriv (k : Nat) (v : Int)
+  /-- `t.delete_deriv(k)` / `delete_derivs()` entry by entry (refused on a read-only object) -/
+  | deleteDeriv (k : Nat)
+  deriving Repr
+
+def applyMutT (h : Heap) (t : Nat) : MutT → Heap
+  | .own m => applyMut h t m
+  | .deriv k m =>
+    match (h.obj t).derivs.lookup k with
+    | some d => applyMut h d m
+    | none => h
+  | .insertDeriv k v =>
+    if (h.obj t).ro then h else
+    let n := h.next
+    let d : Obj := ⟨some n, some (n + 1), none, [], false⟩
+    let ot := h.obj t
+    let ot' : Obj := { ot with derivs := (k, n + 2) :: ot.derivs.filter (fun p => p.1 != k) }
+    { h with arr := upd (upd h.arr n ⟨n, true⟩) (n + 1) ⟨n + 1, true⟩,
+             buf := upd (upd h.buf n v) (n + 1) 0,
+             obj := upd (upd h.obj (n + 2) d) t ot', next := n + 3 }
+  | .deleteDeriv k =>
+    if (h.obj t).ro then h else
+    let ot := h.obj t
+    let ot' : Obj := { ot with derivs := ot.derivs.filter (fun p => p.1 != k) }
+    { h with obj := upd h.obj t ot' }
+
+def runHistT (h : Heap) (a b : Nat) : List (Bool × MutT) → Heap
+  | [] => h
+  | (side, m) :: rest => runHistT (applyMutT h (if side then a else b) m) a b rest
+
 end PMV.Heap
